@@ -104,6 +104,8 @@ type entryResult struct {
 	tvChecked   int
 	tvMismatch  []string
 	skipped     bool
+	transcript  string
+	sdiff       []*solverDiffResult
 }
 
 type confirmedViolation struct {
@@ -127,6 +129,7 @@ func check(args []string) int {
 	nworkers := fs.Int("workers", 0, "workers per entry (0 = auto)")
 	fs.StringVar(&evidenceSuffix, "evidence-suffix", "", "suffix for the evidence file name (used by seeded-change runs)")
 	seed := fs.Int("seed", 0, "seed (recorded only; exploration is deterministic)")
+	sdiff := fs.String("solverdiff", "auto", "re-discharge a transcript of the first worker's queries on the other installed solvers: on|off|auto (auto = thorough tier)")
 	fs.Parse(args)
 	if *id == "" {
 		fmt.Fprintln(os.Stderr, "-id required")
@@ -244,6 +247,13 @@ func check(args []string) int {
 		json.Unmarshal(b, &kf)
 	}
 
+	diffDir := ""
+	if *sdiff == "on" || (*sdiff == "auto" && *tier == "thorough") || os.Getenv("VERIF_SOLVERDIFF") == "1" {
+		if d, err := os.MkdirTemp("", "verif-sdiff-"); err == nil {
+			diffDir = d
+			defer os.RemoveAll(d)
+		}
+	}
 	results := make([]*entryResult, len(spec.Entries))
 	var wg sync.WaitGroup
 	sem := make(chan struct{}, 8)
@@ -299,7 +309,19 @@ func check(args []string) int {
 				os.MkdirAll(filepath.Join(*verif, "evidence/queries"), 0o755)
 				ecfg.QueryLog = filepath.Join(*verif, "evidence/queries", *id+"."+es.Func+".smt2")
 			}
+			var mkMu sync.Mutex
+			mkN := 0
 			mk := func() (*sx.Engine, error) {
+				ecfg := ecfg
+				mkMu.Lock()
+				mkN++
+				if mkN == 1 && diffDir != "" && ecfg.QueryLog == "" {
+					// the first worker's solver traffic is kept as an SMT-LIB transcript for the second-solver diff
+					ecfg.QueryLog = filepath.Join(diffDir, es.Func+".smt2")
+					ecfg.QueryLogMax = 600
+					res.transcript = ecfg.QueryLog
+				}
+				mkMu.Unlock()
 				eng, err := sx.NewEngine(prog, ecfg)
 				if err != nil {
 					return nil, err
@@ -343,6 +365,25 @@ func check(args []string) int {
 	}
 	wg.Wait()
 
+	// ---------------------------------------------------------------- second-solver diff
+	if diffDir != "" {
+		var dwg sync.WaitGroup
+		dsem := make(chan struct{}, 6)
+		for _, res := range results {
+			if res.transcript == "" {
+				continue
+			}
+			dwg.Add(1)
+			go func(res *entryResult) {
+				defer dwg.Done()
+				dsem <- struct{}{}
+				defer func() { <-dsem }()
+				res.sdiff = solverDiff(res.transcript, spec.Solver)
+			}(res)
+		}
+		dwg.Wait()
+	}
+
 	// ---------------------------------------------------------------- native replay
 	rp := &replayer{repo: *repo, verif: *verif, id: *id, pkg: spec.Package, overlayFiles: overlayFiles, spec: &spec, tier: *tier}
 	defer rp.cleanup()
@@ -384,6 +425,11 @@ func check(args []string) int {
 		}
 		if res.solver.errors > 0 {
 			inconcl = append(inconcl, fmt.Sprintf("%s: %d solver error lines", res.spec.Func, res.solver.errors))
+		}
+		for _, d := range res.sdiff {
+			if d.Disagree > 0 {
+				inconcl = append(inconcl, fmt.Sprintf("%s: second solver %s disagrees with the primary on %d of %d queries (first: query #%d)", res.spec.Func, d.Solver, d.Disagree, d.Compared, d.FirstDisagree))
+			}
 		}
 		for _, u := range res.unconfirmed {
 			inconcl = append(inconcl, res.spec.Func+": counterexample did not reproduce natively: "+u)
@@ -824,6 +870,7 @@ func writeEvidence(verif, id, tier string, seed int, spec *Spec, results []*entr
 			"violations_found": len(res.rep.Violations), "violations_confirmed_natively": len(res.confirmed),
 			"instructions_executed": st.TotalSteps, "max_path_instructions": st.MaxPathSteps, "wall_s": st.Wall.Seconds(),
 			"solver_s": res.solver.secs, "queries": res.solver.queries,
+			"second_solver_diff": res.sdiff,
 		})
 	}
 	// boxo functions only in the headline list; all functions counted
